@@ -177,16 +177,18 @@ impl RecordSchema {
         self.steps.len()
     }
 
-    /// chunk ("generation") of a field: index of the FieldAdded step that names it, else 0
+    /// chunk ("generation") of a field: index of the last FieldAdded step that names it (a name may come back after its
+    /// field was removed: the declared field is the latest one of that name), else 0
     pub fn generation(&self, field: &str) -> usize {
+        let mut r = 0;
         for (i, s) in self.steps.iter().enumerate() {
             if let Step::Added(n) = s {
                 if n == field {
-                    return i + 1;
+                    r = i + 1;
                 }
             }
         }
-        0
+        r
     }
 
     /// step number (1-based) of the *reader's* FieldMadeOptional for the field, 0 if none
